@@ -23,7 +23,7 @@ if os.path.isdir(SRC):
 ids = sys.argv[1:] or sorted(d for d in os.listdir(SEEDED) if re.fullmatch(r"C\d\d_\d", d))
 results_path = f"{SEEDED}/results.json"
 results = json.load(open(results_path)) if os.path.exists(results_path) else {}
-env = dict(os.environ, VERIF_SKIP_PROOF="1")
+env = dict(os.environ, VERIF_SKIP_PROOF="1", VERIF_EVIDENCE_DIR="/tmp/seeded_evidence")
 for i in ids:
     pid = i.split("_")[0]
     assert subprocess.run("git -C /repo status --porcelain", shell=True, capture_output=True, text=True).stdout.strip() == "", "/repo not clean"
